@@ -90,6 +90,33 @@ def tx_cases(draw, tier="quick"):
             "added_later": draw(st.sampled_from([0, 0, 1, 2, 3]))}
 
 
+@st.composite
+def bulk_cases(draw, tier="quick"):
+    """Many events (30-150) on few distinct timestamps, inserted in an order unrelated to time, handed over in segments
+    through Transmitter.add_events and Transmitter.add_custom_events (a DataFrame whose rows are not sorted by time)."""
+    n = draw(st.integers(2, 10))
+    gaps = draw(st.lists(st.sampled_from([2 * US, 60 * US, 3600 * US, 86400 * US]), min_size=n, max_size=n))
+    grid, t = [], 0
+    for g in gaps:
+        t += g
+        grid.append(t)
+    mingap = min(gaps[1:])
+    lat = max(0, min(draw(st.sampled_from([0, 0, 1, US, mingap // 2, mingap - 1])), mingap - 1))
+    stamps = sorted(set([g + o for g in grid for o in draw(st.lists(st.sampled_from([0, 0, 1, lat, lat + 1, -1, mingap // 2]), max_size=2))]))
+    if not stamps:
+        stamps = [grid[0]]
+    m = draw(st.integers(30, 150))
+    evs = [stamps[i] for i in draw(st.lists(st.integers(0, len(stamps) - 1), min_size=m, max_size=m))]
+    segs = []
+    left = m
+    while left > 0:
+        k = min(left, draw(st.integers(1, 80)))
+        segs.append([draw(st.sampled_from(["events", "frame", "frame"])), k])
+        left -= k
+    return {"grid": grid, "lat_us": lat, "evs": evs, "markov": False, "warm_us": None, "fold": None, "episode_length": None,
+            "np_seed": 0, "added_later": 0, "segments": segs}
+
+
 def tx_model(case):
     grid = sorted(set(case["grid"]))
     lat = case["lat_us"]
@@ -116,7 +143,22 @@ def run_tx(case):
     first = case["grid"][: len(case["grid"]) - later]
     tr = Transmitter([E.dt(g) for g in first], folds=folds, markov_reset=case["markov"],
                      warmup=timedelta(microseconds=case["warm_us"]) if case["warm_us"] else None)
-    tr.add_events([E.Ping(E.dt(s), i) for i, s in enumerate(case["evs"])])
+    if case.get("segments"):
+        import pandas as pd
+        at = 0
+        for how, k in case["segments"]:
+            chunk = list(enumerate(case["evs"]))[at:at + k]
+            at += k
+            if how == "events":
+                tr.add_events([E.Ping(E.dt(s), i) for i, s in chunk])
+            else:
+                tr.add_custom_events(pd.DataFrame({"uid": [i for i, _ in chunk], "value": [0.0] * len(chunk)},
+                                                  index=pd.DatetimeIndex([E.dt(s) for _, s in chunk])), E.Ping)
+        res.tag("bulk:%d-events" % (10 * (len(case["evs"]) // 10)))
+        if any(h == "frame" and k > 16 for h, k in case["segments"]):
+            res.tag("unsorted-frame-of-more-than-16-rows")
+    else:
+        tr.add_events([E.Ping(E.dt(s), i) for i, s in enumerate(case["evs"])])
     if later:
         tr.add_timesteps([E.dt(g) for g in case["grid"][len(case["grid"]) - later:]])
         res.tag("timesteps-added-after-the-events")
@@ -191,6 +233,12 @@ def run_tx(case):
                     b, k, latent_ids, nonlatent_ids, own_lat, own_non))
                 break
     return finish_tx(res, case, stats, undeliverable)
+
+
+def run_bulk(case):
+    res = run_tx(case)
+    res.nontrivial = len(case["evs"]) > len(set(case["evs"])) + 10
+    return res
 
 
 def finish_tx(res, case, stats, undeliverable):
@@ -464,5 +512,6 @@ def _at_ruin(case):
 PARTS = [
     Part("transmitter", strategy=lambda tier: tx_cases(tier), run=run_tx, quick=16000, thorough=400000),
     Part("environment", strategy=lambda tier: env_cases(tier), run=run_env, quick=8000, thorough=200000),
+    Part("bulk", strategy=lambda tier: bulk_cases(tier), run=run_bulk, quick=1500, thorough=60000),
     Part("at-ruin", strategy=_at_ruin_cases, run=_at_ruin, quick=1500, thorough=40000),
 ]
